@@ -471,6 +471,9 @@ func Remove(name string) error {
 
 func Rename(oldpath, newpath string) error {
 	f := Current
+	// os.Rename lstats the destination first (to refuse renaming onto a
+	// directory) and ignores a failure of that lstat
+	f.call("stat", newpath)
 	if ft := f.call("rename", newpath); ft != "" {
 		return &os.LinkError{Op: "rename", Old: oldpath, New: newpath, Err: faultErr(ft)}
 	}
